@@ -191,7 +191,9 @@ CHECKS["C09"] = dict(
     "bytes and headers (multipart: part by part, each message read with the boundary it announces). In addition the commands that real "
     "`st run` invocations PRINT for failures (unit and stateful phases, user headers, multi-line and multipart bodies) are cut out of "
     "the report, executed, and must equal one of the failing requests the API received.",
-    note="Header values are ASCII and payloads text, as the statement says; client-added headers and the test-case id are ignored.",
+    note="Header values are ASCII and payloads text, as the statement says; client-added headers and the test-case id are ignored, "
+    "except when the case, the call or the command line (-H) defines a header of such a name (Accept, User-Agent, Accept-Encoding): "
+    "then it is content and compared.",
     technique="runtime monitoring: round-trip differential (sent request vs request produced by executing the printed command)",
     design_ref="DESIGN.md#c09",
 )
